@@ -107,9 +107,13 @@ inductive SeekFrom where
 /-- `UNIX_EPOCH`, `Duration::from_secs`, `SystemTime + Duration` (nanoseconds) -/
 def UNIX_EPOCH : SystemTime := 0
 def duration_from_secs (s : Nat) : Duration := s * 1000000000
-/-- `FileSetBloom` idealised as the exact set (a Bloom filter has no false negatives; a false positive only sends
-    `plan_deletions` to the exact test it performs anyway) -/
-def bloom_new (_n : Nat) : HashSet Path := []
+/-- `FileSetBloom`: a Bloom filter has no false negatives, but answers "maybe" for some paths that were never
+    inserted.  Those false positives are an UNKNOWN list (`opaque`: nothing can be proved about its members) that
+    the filter contains from the start; `insert` adds the real members (`set_insert`), `contains` is membership.
+    (With the exact set `[]` here the `HashSet` re-check of `plan_deletions` would be dead code in the translation,
+    and removing it from the Rust source could not be noticed.) -/
+opaque bloomFalsePositives : Nat → HashSet Path
+def bloom_new (n : Nat) : HashSet Path := bloomFalsePositives n
 /-- `Iterator::flatten` over `Result` items: the `Ok` ones -/
 def flatten (l : List α) : List α := l
 /-- the text of an error message (never inspected by the program) -/
